@@ -4,9 +4,15 @@
   the function the translator produced from the CURRENT source is, for all inputs, the hand-written model function that the property
   theorems are about. A change to one of these Python functions changes the generated definition and breaks a theorem here
   statically, without needing a test input. (Split per source area so that a change in one area does not alarm unrelated properties.)
+  The proofs close with `tie_close` (Props/TieRobC.lean): reflexivity first, then normalisation of both sides and a case analysis, so
+  that a behaviour-preserving reshaping of the Python (renamed / inlined locals, early `return` vs conditional expression, negated
+  test with swapped branches, `for _ in range(k)` vs the unrolled calls, …) keeps the theorem, while a real change fails in seconds.
 -/
+import PyEcc.Props.TieRobC
 import PyEcc.Gen.ExtraPairing
 import PyEcc.Props.TieMiller
+
+set_option linter.unusedSimpArgs false
 
 namespace PyEcc.Tie
 open PyEcc
@@ -18,52 +24,53 @@ open PyEcc
 theorem pairing_optBls_eq (Q : OBls2 × OBls2 × OBls2) (P : Fq blsP × Fq blsP × Fq blsP) (fe : Bool) :
     Gen.ExtraPairing.OptBls.pairing Q P fe = pairingOptBls Q P fe := by
   unfold Gen.ExtraPairing.OptBls.pairing pairingOptBls
-  with_reducible rfl
+  tie_close [ne_eq, ite_not, List.range_succ, List.range_zero, List.foldl_append, List.foldl_cons, List.foldl_nil]
 
 /-- optimized bls12_381 `final_exponentiate(p)` (the split form through `exp_by_p`) as translated from the
     source is the model's `finalExponentiateOptBls`. -/
 theorem final_exponentiate_optBls_eq (p : OBls12) :
     Gen.ExtraPairing.OptBls.final_exponentiate p = finalExponentiateOptBls p := by
   unfold Gen.ExtraPairing.OptBls.final_exponentiate finalExponentiateOptBls optBlsFinalExponentiate
-  with_reducible rfl
+  -- robust against: the six Frobenius applications written as a `for _ in range(6)` loop (unrolled here), renamed locals
+  tie_close [List.range_succ, List.range_zero, List.foldl_append, List.foldl_cons, List.foldl_nil]
 
 /-- optimized bn128 `pairing(Q, P, final_exponentiate)` as translated from the source is the model's
     `pairingOptBn`. -/
 theorem pairing_optBn_eq (Q : OBn2 × OBn2 × OBn2) (P : Fq bnP × Fq bnP × Fq bnP) (fe : Bool) :
     Gen.ExtraPairing.OptBn.pairing Q P fe = pairingOptBn Q P fe := by
   unfold Gen.ExtraPairing.OptBn.pairing pairingOptBn
-  with_reducible rfl
+  tie_close [ne_eq, ite_not, List.range_succ, List.range_zero, List.foldl_append, List.foldl_cons, List.foldl_nil]
 
 /-- reference bls12_381 `pairing(Q, P)` as translated from the source is the model's `pairingRefBls`. -/
 theorem pairing_refBls_eq (Q : Option (RBls2 × RBls2)) (P : Option (Fq blsP × Fq blsP)) :
     Gen.ExtraPairing.RefBls.pairing Q P = pairingRefBls Q P := by
   unfold Gen.ExtraPairing.RefBls.pairing pairingRefBls
-  with_reducible rfl
+  tie_close [ne_eq, ite_not, List.range_succ, List.range_zero, List.foldl_append, List.foldl_cons, List.foldl_nil]
 
 /-- reference bn128 `pairing(Q, P)` as translated from the source is the model's `pairingRefBn`. -/
 theorem pairing_refBn_eq (Q : Option (RBn2 × RBn2)) (P : Option (Fq bnP × Fq bnP)) :
     Gen.ExtraPairing.RefBn.pairing Q P = pairingRefBn Q P := by
   unfold Gen.ExtraPairing.RefBn.pairing pairingRefBn
-  with_reducible rfl
+  tie_close [ne_eq, ite_not, List.range_succ, List.range_zero, List.foldl_append, List.foldl_cons, List.foldl_nil]
 
 /-- optimized bn128 `final_exponentiate(p)` is `p ** ((field_modulus**12 - 1) // curve_order)`, the exponent
     the model passes to its Miller loop. -/
 theorem final_exponentiate_optBn_eq (p : OBn12) :
     Gen.ExtraPairing.OptBn.final_exponentiate p = p ^ ((bnP ^ 12 - 1) / Gen.Consts.optimized_bn128_curve_order) := by
   unfold Gen.ExtraPairing.OptBn.final_exponentiate
-  with_reducible rfl
+  tie_close [ne_eq, ite_not, List.range_succ, List.range_zero, List.foldl_append, List.foldl_cons, List.foldl_nil]
 
 /-- reference bls12_381 `final_exponentiate(p)` is `p ** blsFinalExp`. -/
 theorem final_exponentiate_refBls_eq (p : RBls12) :
     Gen.ExtraPairing.RefBls.final_exponentiate p = p ^ blsFinalExp := by
   unfold Gen.ExtraPairing.RefBls.final_exponentiate blsFinalExp
-  with_reducible rfl
+  tie_close [ne_eq, ite_not, List.range_succ, List.range_zero, List.foldl_append, List.foldl_cons, List.foldl_nil]
 
 /-- reference bn128 `final_exponentiate(p)` is `p ** bnFinalExp`. -/
 theorem final_exponentiate_refBn_eq (p : RBn12) :
     Gen.ExtraPairing.RefBn.final_exponentiate p = p ^ bnFinalExp := by
   unfold Gen.ExtraPairing.RefBn.final_exponentiate bnFinalExp
-  with_reducible rfl
+  tie_close [ne_eq, ite_not, List.range_succ, List.range_zero, List.foldl_append, List.foldl_cons, List.foldl_nil]
 
 
 end PyEcc.Tie
